@@ -78,7 +78,10 @@ func (m *verifModel) Forward(ctx ml.Context, batch input.Batch) (ml.Tensor, erro
 	return &verifTensor{f: f}, nil
 }
 
-func (m *verifModel) Encode(s string, addSpecial bool) ([]int32, error) { return []int32{0}, nil }
+// a prompt of len(s) tokens, all id 0 (the drivers that build their Sequence through NewSequence use "p")
+func (m *verifModel) Encode(s string, addSpecial bool) ([]int32, error) {
+	return make([]int32, max(1, len(s))), nil
+}
 func (m *verifModel) Decode(ids []int32) (string, error) {
 	var sb strings.Builder
 	for _, id := range ids {
